@@ -8,6 +8,10 @@
 pub mod verif {
     /// harness-controlled: the document is malformed for the target type
     pub static mut FAIL: bool = false;
+    /// harness-controlled: bytes other than whitespace follow the first JSON value of the document
+    /// (`{"a":1}garbage`, two documents, ...): deserializing a value succeeds, `Deserializer::end()` and
+    /// the `from_slice` / `from_str` convenience functions report the trailing characters
+    pub static mut TRAILING: bool = false;
     /// number of deserializers built from a slice
     pub static mut BUILT: u8 = 0;
 }
@@ -64,8 +68,13 @@ impl<'a> Deserializer<de::StrRead<'a>> {
     }
 }
 impl<'de, R: de::Read<'de>> Deserializer<R> {
-    /// the real method checks that only whitespace is left
+    /// "This method should be called after a value has been fully deserialized. It allows the
+    /// Deserializer to validate that the input stream is at the end or that it only has trailing
+    /// whitespace."
     pub fn end(&mut self) -> Result<()> {
+        if unsafe { verif::TRAILING } {
+            return Err(Error);
+        }
         Ok(())
     }
 }
@@ -85,7 +94,9 @@ impl<'de, 'a, R: de::Read<'de>> serde::Deserializer<'de> for &'a mut Deserialize
 }
 pub fn from_slice<'a, T: serde::Deserialize<'a>>(v: &'a [u8]) -> Result<T> {
     let mut d = Deserializer::from_slice(v);
-    T::deserialize(&mut d)
+    let t = T::deserialize(&mut d)?;
+    d.end()?;
+    Ok(t)
 }
 pub fn from_str<'a, T: serde::Deserialize<'a>>(s: &'a str) -> Result<T> {
     from_slice(s.as_bytes())
